@@ -80,6 +80,8 @@ def gen_spec(rng, tier="quick", for_crash=False):
         lab["density"] = rng.choice([0.85, 0.5, 1])
     if rng.random() < 0.2:
         lab["stubWidth"] = rng.choice([1, 2, 0])
+    if rng.random() < 0.15:
+        lab["lineSpacing"] = rng.choice([2, 14, 0, 5])
     if lab or rng.random() < 0.3:
         o["labella"] = lab
     if rng.random() < 0.25:
